@@ -28,7 +28,9 @@ pub(super) fn decode(src: &mut &[u8], dst: &mut [u8]) -> io::Result<()> {
 
         rle_model = &mut rle_models[INITIAL_CONTEXT];
 
-        while n == CONTINUE {
+        // A run is clamped to the remaining output, i.e., there is no need to read the rest of a
+        // run length that already covers it.
+        while n == CONTINUE && len < iter.len() {
             n = rle_model.decode(src, &mut coder).map(usize::from)?;
             len += n;
             rle_model = &mut rle_models[CONTINUE_CONTEXT];
